@@ -295,7 +295,7 @@ def main():
     thorough = chk.tier == 'thorough'
     chk.bound(closest_points='all 8 real coordinates, every path of the routine (no bound)',
               radius_pairs='clouds up to %s points' % ('3x3' if thorough else '2x3'),
-              backend_run='clouds of %s points with 6-D states, radius and tolerances symbolic' % ('3x2 and 2x2' if thorough else '2x2'))
+              backend_run='clouds of %s points with 6-D states, radius and tolerances symbolic' % ('2x2' if thorough else '2x2'))
     chk.assume('coordinates of the section points in [-10, 10] (only used to rule out the 1e300 / 1e9 sentinels)',
                'in backend.run the pairwise squared distances and the velocity-mismatch norms enter the solver as free non-negative reals '
                '(over-approximation: every comparison the filter makes is linear in them; unsat answers remain valid for all clouds)',
@@ -307,8 +307,7 @@ def main():
     if thorough:
         radpairs(chk, cb, 3, 3)
     backend_run(chk, cb, 2, 2, 600 if not thorough else 3000)
-    if thorough:
-        backend_run(chk, cb, 3, 2, 6000)
+    # (a 3x2 cloud through backend.run was tried for the thorough tier: > 6000 paths and 75 min without completing, so it is not claimed)
 
     # translator validation
     r = rng(chk, 19)
